@@ -75,12 +75,9 @@ def build(log=None):
             sh("coq_makefile -f _CoqProject -o Makefile", cwd=COQ, timeout=120)
         rc, so, se = sh("make -k -j%d 2>&1" % min(16, os.cpu_count() or 4), cwd=COQ, timeout=3000)
         mlog = so + se
-        failed = []
-        for f in coq_files():
-            vo = os.path.join(COQ, f[:-2] + ".vo")
-            src = os.path.join(COQ, f)
-            if not os.path.exists(src) or not os.path.exists(vo) or os.path.getmtime(vo) < os.path.getmtime(src):
-                failed.append(f)
+        # what is still out of date after `make -k` did not build (the file itself failed, or something it depends on did)
+        rc_n, so_n, se_n = sh("make -n -k 2>&1", cwd=COQ, timeout=600)
+        failed = sorted(set(re.findall(r'COQC (\S+\.v)', so_n)) | set(f for f in coq_files() if not os.path.exists(os.path.join(COQ, f))))
         # extraction output lands in coq/ (cwd of coqc); move and compile if newer than the driver
         drv = os.path.join(OCAML, "drv")
         mdl = os.path.join(COQ, "model.ml")
